@@ -25,7 +25,7 @@ fn cache_nodes(actor: &mut Actor, target: Id, with_token: bool) {
 }
 
 //@ ob: C06.O3
-//@ tier: quick
+//@ tier: thorough
 //@ cap: 2700
 //@ mem: 20
 //@ standins: tracing lru vcoll flume
